@@ -37,7 +37,8 @@ def jobs(tier):
 
 
 class Verdict(Harness):
-    witnesses = ('fail_after_pending_output', 'pass_needs_two_outputs', 'pass_only_via_repr', 'all_skipped')
+    witnesses = ('fail_after_pending_output', 'pass_needs_two_outputs', 'pass_only_via_repr', 'all_skipped',
+                 'repr_raises_fails', 'repr_raises_but_stdout_matches')
 
     def __init__(self, job):
         self.m = hrun.install()
@@ -64,6 +65,7 @@ class Verdict(Harness):
         self.hascode = [z3.Bool('hascode%d' % i) for i in range(K)]
         self.haswant = [z3.Bool('haswant%d' % i) for i in range(K)]
         self.evaled = [z3.Bool('eval%d' % i) for i in range(K)]
+        self.reprraises = [z3.Bool('repr_raises%d' % i) for i in range(K)]
         if job['variant'] == 'uf':
             self.M = hrun.MatchUF(K * oc, wc)
             self.M.install(self.m['checker'])
@@ -91,21 +93,25 @@ class Verdict(Harness):
             hc = bool(SymBool(self.hascode[i]))
             hw = bool(SymBool(self.haswant[i]))
             ev = bool(SymBool(self.evaled[i])) if (hw and hc) else False
+            rr = bool(SymBool(self.reprraises[i])) if ev else False
             src = ('x = 1 #%d#' if hc else '# nothing to run #%d#') % i
             p = m['doctest_part'].DoctestPart([src], want_lines=[self.wants[i]] if hw else None,
                                               line_offset=i, orig_lines=['>>> ' + src], directives=[])
             if ev:
                 p.compile_mode = 'eval'
             parts.append(p)
-            cfg.append((hc, hw, ev))
+            cfg.append((hc, hw, ev, rr))
 
-            def beh(code, glb, i=i, ev=ev):
+            def beh(code, glb, i=i, ev=ev, rr=rr):
                 E.cap.write(self.outs[i])
-                return hrun.Value(self.reprs[i], s=self.strs[i]) if ev else None
+                return hrun.Value(self.reprs[i], s=self.strs[i], repr_raises=rr) if ev else None
             E.behaviour[i] = beh
         dt = m['doctest_example'].DocTest('', None, 'f', 0, 1, mode='native')
         dt._parts = parts
-        summ = dt.run(verbose=0, on_error='return')
+        try:
+            summ = dt.run(verbose=0, on_error='return')
+        except Exception as e:
+            return {'run_returns_a_summary': z3.BoolVal(False)}
         trace = list(E.trace)
 
         # ---------------- declarative oracle over the same symbolic inputs
@@ -113,7 +119,7 @@ class Verdict(Harness):
         conds = []      # z3: part i does not fail
         runnable = []
         multi, viarepr = [], []
-        for i, (hc, hw, ev) in enumerate(cfg):
+        for i, (hc, hw, ev, rr) in enumerate(cfg):
             if not hc:
                 conds.append(z3.BoolVal(True))
                 continue
@@ -126,12 +132,13 @@ class Verdict(Harness):
                         flags.append(self.CO(got, self.wants[i]))
                     else:
                         empty = zbool(got == '')
-                        cr = self.CO(self.reprs[i], self.wants[i])
+                        # a value whose repr raises can only satisfy the want through stdout
+                        cr = z3.BoolVal(False) if rr else self.CO(self.reprs[i], self.wants[i])
                         flags.append(z3.If(empty, cr, z3.Or(self.CO(got, self.wants[i]), cr)))
                 conds.append(z3.Or(flags))
                 if len(flags) >= 2:
                     multi.append(z3.And(z3.Not(flags[0]), flags[1]))
-                if ev:
+                if ev and not rr:
                     viarepr.append(z3.And(self.CO(self.reprs[i], self.wants[i]),
                                           z3.Not(self.CO(self.outs[i], self.wants[i])), zbool(self.outs[i] != '')))
                 pending = []
@@ -139,6 +146,7 @@ class Verdict(Harness):
                 conds.append(z3.BoolVal(True))
                 pending.append(self.outs[i])
         GW = m['checker'].GotWantException
+        EGR = m['checker'].ExtractGotReprException
         props = {}
         terms = []
         for f in range(K + 1):
@@ -147,7 +155,8 @@ class Verdict(Harness):
                 exp_trace = [i for i in runnable if i <= f]
                 ok = (summ['failed'] is True and summ['passed'] is False and summ['skipped'] is False
                       and trace == exp_trace and dt.failed_part is parts[f]
-                      and summ['exc_info'] is not None and isinstance(summ['exc_info'][1], GW))
+                      and summ['exc_info'] is not None and
+                      (isinstance(summ['exc_info'][1], GW) or (cfg[f][3] and isinstance(summ['exc_info'][1], EGR))))
             else:
                 exp_trace = list(runnable)
                 nothing = len(runnable) == 0
@@ -167,6 +176,10 @@ class Verdict(Harness):
         # every exec/eval saw the one namespace object of this doctest
         props['one_namespace'] = z3.BoolVal(all(g is dt.global_namespace for g in E.globs))
 
+        if summ['failed'] and trace and cfg[trace[-1]][3]:
+            ex.witness('repr_raises_fails', zbool(self.outs[trace[-1]] != ''))
+        if not summ['failed'] and any(c[3] for c in cfg):
+            ex.witness('repr_raises_but_stdout_matches', True)
         if summ['failed'] and len(trace) >= 2 and any(not cfg[i][1] for i in trace[:-1]):
             ex.witness('fail_after_pending_output', zbool(self.outs[trace[0]] != ''))
         if multi:
@@ -185,7 +198,8 @@ class Verdict(Harness):
             parts.append({'has_code': b(self.hascode[i]), 'has_want': b(self.haswant[i]),
                           'eval': b(self.evaled[i]) and b(self.haswant[i]) and b(self.hascode[i]),
                           'stdout': self.outs[i].concrete(model), 'want': self.wants[i].concrete(model),
-                          'repr': self.reprs[i].concrete(model), 'str': self.strs[i].concrete(model)})
+                          'repr': self.reprs[i].concrete(model), 'str': self.strs[i].concrete(model),
+                          'repr_raises': b(self.reprraises[i]) and b(self.evaled[i]) and b(self.haswant[i]) and b(self.hascode[i])})
         return {'variant': self.job['variant'], 'parts': parts}
 
 
@@ -208,7 +222,8 @@ def reference(parts):
             for t in range(1, len(outs) + 1):
                 got = ''.join(outs[-t:])
                 if p['eval']:
-                    ok = ok or (p['repr'] == p['want'] if got == '' else (got == p['want'] or p['repr'] == p['want']))
+                    viarepr = (not p.get('repr_raises')) and p['repr'] == p['want']
+                    ok = ok or (viarepr if got == '' else (got == p['want'] or viarepr))
                 else:
                     ok = ok or got == p['want']
             if not ok:
@@ -231,7 +246,7 @@ def real_run(parts):
         if not p['has_code']:
             src = '# nothing to run'
         elif p['eval']:
-            src = '__f(%d, %r, %r, %r)' % (i, p['stdout'], p['repr'], p.get('str', p['repr']))
+            src = '__f(%d, %r, %r, %r, %r)' % (i, p['stdout'], p['repr'], p.get('str', p['repr']), bool(p.get('repr_raises')))
         else:
             src = '__g(%d, %r)' % (i, p['stdout'])
         rp = doctest_part.DoctestPart([src], want_lines=p['want'].split('\n') if p['has_want'] else None,
@@ -242,28 +257,35 @@ def real_run(parts):
     dt._parts = real_parts
 
     class V:
-        def __init__(self, r, s):
+        def __init__(self, r, s, rr=False):
             self.r = r
             self.s = s
+            self.rr = rr
 
         def __repr__(self):
+            if self.rr:
+                raise RuntimeError('repr failed')
             return self.r
 
         def __str__(self):
             return self.s
 
-    def f(i, o, r, s):
+    def f(i, o, r, s, rr=False):
         import sys
         TRACE.append(i)
         sys.stdout.write(o)
-        return V(r, s)
+        return V(r, s, rr)
 
     def g(i, o):
         import sys
         TRACE.append(i)
         sys.stdout.write(o)
     dt.global_namespace.update(__f=f, __g=g)
-    summ = dt.run(verbose=0, on_error='return')
+    try:
+        summ = dt.run(verbose=0, on_error='return')
+    except Exception as e:
+        return {'escaped': '%s: %s' % (type(e).__name__, e), 'trace': TRACE, 'failed': None, 'passed': None, 'skipped': None,
+                'failed_part': None, 'exc': None, 'logged': {}}
     fp = real_parts.index(dt.failed_part) if dt.failed_part in real_parts else None
     return {'failed': summ['failed'], 'passed': summ['passed'], 'skipped': summ['skipped'], 'trace': TRACE,
             'failed_part': fp, 'exc': type(summ['exc_info'][1]).__name__ if summ['exc_info'] else None,
@@ -280,13 +302,17 @@ def replay(job, cex):
     exp = reference(parts)
     real = real_run(parts)
     bad = []
+    if real.get('escaped'):
+        return {'reproduced': True, 'detail': 'DocTest.run(on_error="return") raised %s for parts %r' % (real['escaped'], parts),
+                'signature': 'C02:escaped:' + real['escaped'].split(':')[0]}
     if real['failed'] != exp['failed']:
         bad.append('failed flag')
     if real['trace'] != exp['trace']:
         bad.append('trace')
     if exp['failed'] and real['failed_part'] != exp['failed_part']:
         bad.append('failed_part')
-    if exp['failed'] and real['exc'] != 'GotWantException':
+    rrf = exp['failed'] and parts[exp['failed_part']].get('repr_raises')
+    if exp['failed'] and real['exc'] != 'GotWantException' and not (rrf and real['exc'] == 'ExtractGotReprException'):
         bad.append('exception type')
     if not exp['failed'] and (real['skipped'] != exp['skipped'] or real['passed'] == exp['skipped']):
         bad.append('passed/skipped')
